@@ -280,6 +280,7 @@ func cmdCheck(repo, verif, prop, tier string, timeoutMs int, verbose bool) int {
 	}
 	base := loadBaseline(verif, prop)
 	seen := map[string]bool{}
+	replays := map[string]int{}
 	var knownHit []string
 	nObl, nDis := 0, 0
 	for _, fr := range cr.results {
@@ -315,8 +316,9 @@ func cmdCheck(repo, verif, prop, tier string, timeoutMs int, verbose bool) int {
 			}
 			body := fmt.Sprintf("obligation: %s\nproperty:   %s\nkind:       %s\nwhere:      %s\nclause/src: %s\nstatus:     %s (last solver: %s)\nhistory:    %s\nquery file: %s\n\nThe verifier could not discharge this obligation from the current source of /repo.\n%s\n",
 				o.Name, prop, o.Kind, o.Pos, o.Src, o.Status, o.Solver, was, fr.SMTFile, o.Model)
-			rp := replayResult{false, "no-failing-input-found: replay not attempted"}
-			if t, ok := cr.targets[fr.Fn]; ok && t.lm == nil {
+			rp := replayResult{false, "no-failing-input-found: replay not attempted (more than 3 failing obligations in this function; the first ones carry the replay)"}
+			replays[fr.Fn]++
+			if t, ok := cr.targets[fr.Fn]; ok && t.lm == nil && replays[fr.Fn] <= 3 {
 				rp = cr.eng.replayObligation(t, o.Name, o.Kind, verif, prop)
 			}
 			if rp.reproduced {
